@@ -24,6 +24,8 @@ type c09Cfg struct {
 	useKind int     // 0 plain use of 'blk' (defines all names), 1 aliased use of 'blk2' (x as y) + block('y')
 	blockFn bool    // root's first block also prints block(<second name>)
 	nested  bool    // every child-level definition holds a nested block of its own before calling parent()
+	splitUse   bool // the plain use is spread over three use tags ('blkE' unrelated, 'blkA' the first name, 'blkB' the others)
+	embedIn    bool // every child-level definition embeds a component and overrides, for that embed, a block named like the layout's first
 	usedParent bool // the blocks of the plainly used template call parent() themselves (the next definition below them)
 	rootParent bool // the root holds a block rp that calls parent(); the first child overrides it, so it never runs
 	pform   int     // how parent() is written: 0 once, 1 twice, 2 inside a 2-iteration loop, 3 after a block() call of the block itself
@@ -122,7 +124,9 @@ func c09Templates(c c09Cfg) map[string]string {
 			s.WriteString("{% block rp %}{% endblock %}")
 		}
 		if c.useLvl == l {
-			if c.useKind == 0 {
+			if c.useKind == 0 && c.splitUse {
+				s.WriteString("{% use 'blkE' %}{% use 'blkA' %}{% use 'blkB' %}")
+			} else if c.useKind == 0 {
 				s.WriteString("{% use 'blk' %}")
 			} else if c.useKind == 1 {
 				s.WriteString("{% use 'blk2' with x as y %}")
@@ -146,6 +150,9 @@ func c09Templates(c c09Cfg) map[string]string {
 			if c.nested {
 				extra += "{% if true %}{% block zz" + n + itoa(l) + " %}(z:{{ name() }}){% endblock %}{% endif %}"
 			}
+			if c.embedIn {
+				extra += "{% embed 'comp' %}{% block " + c.names[0] + " %}E{% endblock %}{% endembed %}"
+			}
 			if c.pform == 3 && i == 0 && len(c.names) > 1 && c.opt[l][i] == 2 {
 				extra += "%{{ block('" + c.names[1] + "') }}"
 			}
@@ -162,6 +169,21 @@ func c09Templates(c c09Cfg) map[string]string {
 		ub.WriteString("{% block " + n + " %}[" + n + "U:{{ name() }}]{% endblock %}text in used template")
 	}
 	t["blk"] = ub.String()
+	// the same blocks spread over two templates, and a third that defines an unrelated block
+	var ua, ubb strings.Builder
+	for i, n := range c.names {
+		w := &ubb
+		if i == 0 {
+			w = &ua
+		}
+		par := ""
+		if c.usedParent {
+			par = "^{{ parent() }}"
+		}
+		w.WriteString("{% block " + n + " %}[" + n + "U:{{ name() }}" + par + "]{% endblock %}text in used template")
+	}
+	t["blkA"], t["blkB"], t["blkE"] = ua.String(), ubb.String(), "{% block unrelated %}u{% endblock %}"
+	t["comp"] = "c({% block " + c.names[0] + " %}C{% endblock %})"
 	t["blk2"] = "{% block x %}[xX:{{ name() }}]{% endblock %}{% block w %}[wW:{{ name() }}]{% endblock %}{% block v %}[vV:{{ name() }}]{% endblock %}"
 	return t
 }
@@ -201,10 +223,17 @@ func c09Expect(c c09Cfg) string {
 		n := c.names[ni]
 		d := chain[n][k]
 		if d.level == -1 {
-			if c.usedParent {
-				return "[" + n + "U:blk^" + render(ni, k+1) + "]"
+			un := "blk"
+			if c.splitUse {
+				un = "blkB"
+				if ni == 0 {
+					un = "blkA"
+				}
 			}
-			return "[" + n + "U:blk]"
+			if c.usedParent {
+				return "[" + n + "U:" + un + "^" + render(ni, k+1) + "]"
+			}
+			return "[" + n + "U:" + un + "]"
 		}
 		s := "[" + n + itoa(d.level) + c09CurI + ":" + d.tpl
 		if d.level == 0 {
@@ -221,6 +250,9 @@ func c09Expect(c c09Cfg) string {
 		}
 		if d.level > 0 && c.nested {
 			s += "(z:" + d.tpl + ")"
+		}
+		if d.level > 0 && c.embedIn {
+			s += "c(E)"
 		}
 		if d.parent && c.pform == 3 && ni == 0 && len(c.names) > 1 && d.level > 0 {
 			s += "%" + render(1, 0)
@@ -281,11 +313,15 @@ func tn(l int) string {
 
 func c09Run(c core.Case) core.Result {
 	c09NameStyle = c.N[5] >> 2 & 1
-	usedParent, rootParent := c.N[5]>>3&1 == 1, c.N[5]>>4&1 == 1
+	usedParent, rootParent, embedIn := c.N[5]>>3&1 == 1, c.N[5]>>4&1 == 1, c.N[5]>>5&1 == 1
 	c.N = append([]int{}, c.N...)
 	c.N[5] &= 3
+	splitUse := c.N[5] == 3
+	if splitUse {
+		c.N[5] = 0
+	}
 	cfg := c09Decode(c.N)
-	cfg.usedParent, cfg.rootParent = usedParent, rootParent
+	cfg.usedParent, cfg.rootParent, cfg.splitUse, cfg.embedIn = usedParent, rootParent, splitUse, embedIn
 	if cfg.useLvl >= cfg.L || (cfg.useLvl > 0 && cfg.useKind >= 1) && func() bool {
 		for i := range cfg.names {
 			if cfg.opt[cfg.useLvl][i] != 0 {
@@ -419,6 +455,13 @@ func c09Gen(maxL, nNames, pforms int, emit func(core.Case)) {
 										}
 										if pref == 0 {
 											emit(core.Case{Fam: "cfg", N: append([]int{L, nNames, layout, pref, useLvl, uk | 1<<4, bf | pf<<2}, opts...)})
+											// every child-level definition embeds a component, overriding there a block named like the layout's
+											emit(core.Case{Fam: "cfg", N: append([]int{L, nNames, layout, pref, useLvl, uk | 1<<5, bf | pf<<2}, opts...)})
+										}
+										if uk == 0 && useLvl > 0 {
+											// the plain use spread over three use tags, its blocks plain and calling parent()
+											emit(core.Case{Fam: "cfg", N: append([]int{L, nNames, layout, pref, useLvl, 3, bf | pf<<2}, opts...)})
+											emit(core.Case{Fam: "cfg", N: append([]int{L, nNames, layout, pref, useLvl, 3 | 1<<3, bf | pf<<2}, opts...)})
 										}
 									}
 									if L <= 3 && pf == 0 && bf == 0 && layout == 0 {
@@ -458,6 +501,6 @@ func init() {
 		Levels:      c09Levels,
 		Run:         c09Run,
 		NoDedup:     true,
-		Budget:      budget(5*time.Minute, 45*time.Minute),
+		Budget:      budget(5*time.Minute, 75*time.Minute),
 	})
 }
